@@ -885,6 +885,58 @@ def c12_conflict_probe_timer(ctx):
     return q.result()
 
 
+def c12_tiebreak_retry_timer(ctx):
+    q = Q("c12_tiebreak_retry_timer", ["Zeroconf::handle_query (window: simultaneous-probe tiebreak)", "Probe::tiebreaking (as an arbitrary update of the probe)"],
+          "window from the call of Probe::tiebreaking to the next question-type test; the probe before and after the call is arbitrary", ["window slice", "tiebreaking may change the probe in any way (havoc)"])
+    f = ctx.funcs[ctx.fn("::handle_query")]
+    start = None
+    for b in sorted(f.blocks, key=lambda x: int(x[2:])):
+        if re.search(r"Probe::tiebreaking\(", f.blocks[b][1]):
+            start = b
+    if start is None:
+        q.unknown.append("call of Probe::tiebreaking not found in handle_query")
+        return q.result()
+    # include the predecessor block(s) that may read the probe before the call: start at the unique predecessor chain of length <= 2
+    preds = [b for b, (st, t) in f.blocks.items() if re.search(r"(?:-> |: )" + start + r"\b", t) and "unwind: " + start not in t]
+    begin = preds[0] if len(preds) == 1 else start
+    ex = Explorer(ctx.funcs, ctx.consts, stop_calls=("PartialEq>::eq", "::eq"), max_paths=300)
+    paths = ex.explore(f.name, start_block=begin)
+    done = [p for p in paths if p.outcome.startswith("stop") or p.outcome == "return"]
+    done = [p for p in done if any(e[0] == "call" and e[1].endswith("Probe::tiebreaking") for e in p.events)]
+    if not done:
+        q.unknown.append("no path from the tiebreak to the next question-type test")
+    n_push = 0
+    for i, p in enumerate(done):
+        idx = max(k for k, e in enumerate(p.events) if e[0] == "call" and e[1].endswith("Probe::tiebreaking"))
+        probe_ref = p.events[idx][2][0]
+        after = p.events[idx + 1:]
+        pushes = [e for e in after if e[0] == "call" and "BinaryHeap" in e[1] and e[1].endswith("::push")]
+        new = p.objs.get(probe_ref.obj, {}).get(probe_ref.path + (3,)) if isinstance(probe_ref, Ref) else None
+        if pushes:
+            n_push += 1
+            arg = pushes[0][2][1]
+            val = arg.items[0] if isinstance(arg, (Adt, Tup)) and arg.items else arg
+            if new is None or not isinstance(val, BV):
+                q.unknown.append(f"path {i}: timer operand not resolved")
+            else:
+                q.valid(p.cond, val.e == new.e, f"path {i}: the wake-up requested after a tiebreak is the probe's (possibly postponed) next_send", val.taint)
+            continue
+        # no wake-up: only acceptable if the path establishes that next_send did not move
+        if new is None:
+            q.fail.append(("after a tiebreak (which may postpone the probe by one second) no wake-up is requested for the new next_send", f"path {i}: next_send is not even read after the call"))
+            continue
+        olds = [v for v in z3_vars(z3.And(*p.cond)) if v.size() == 64 and v.get_id() != new.e.get_id()] if p.cond else []
+        if len(olds) != 1:
+            q.fail.append(("after a tiebreak no wake-up is requested and the path does not compare next_send with its old value", f"path {i}"))
+            continue
+        q.valid(p.cond, new.e == olds[0], f"path {i}: no wake-up only if next_send did not move")
+    if n_push:
+        q.nontrivial += n_push
+    elif not q.fail:
+        q.unknown.append("no path requests a wake-up after the tiebreak")
+    return q.result()
+
+
 def z3_vars(e):
     out, seen, stack = [], set(), [e]
     while stack:
@@ -1080,6 +1132,6 @@ SPECS = {
     "C10": [c10_update_ttl, c10_known_answer_filter],
     "C05": [c05_reset_restores, c05_verify_deadline, c05_verify_shortens_only, c05_evict_predicate],
     "C07": [c07_probe_clock, c07_reannounce_delay],
-    "C12": [c12_poll_timeout, c12_ipcheck_rearm, c12_hostname_timeout_timer, c12_conflict_probe_timer, c11_cache_flush_rule, c05_verify_deadline],
+    "C12": [c12_poll_timeout, c12_ipcheck_rearm, c12_hostname_timeout_timer, c12_conflict_probe_timer, c12_tiebreak_retry_timer, c11_cache_flush_rule, c05_verify_deadline],
     "C19": [c19_browse_backoff, c19_hostname_backoff, c19_resolve_retry, c19_initial_delay, c19_rerun_due],
 }
